@@ -77,6 +77,10 @@ func c18Points(c *core.Case, n int, gen func() pt) ([]pt, []*object.Point, bool)
 			c.Fail("point-constructor", nil, "NewPoint(%v,%v,%v): %v", p.lon, p.lat, p.alt, err)
 			return nil, nil, false
 		}
+		if math.Float64bits(o.Alt()) != math.Float64bits(p.alt) { // "bit for bit" starts at the caller's value (-0.0 is not +0.0)
+			c.Fail("projection-altitude", nil, "point %d: altitude %v (bits %x) is carried by the point object as %v (bits %x)", i, p.alt, math.Float64bits(p.alt), o.Alt(), math.Float64bits(o.Alt()))
+			return nil, nil, false
+		}
 		pts = append(pts, p)
 		objs = append(objs, o)
 		c.KF(p.lon, p.lat, p.alt)
